@@ -83,6 +83,7 @@ var hFields = map[string]hEffect{
 	"project":            {rd(rProjectPtr), "Project"},
 	"fileErrorMap":       {rd(rSavedDiag), ""},
 	"fileChangeErrorMap": {rd(rLiveDiag), ""},
+	"fileChangeCleanMap": {rd(rLiveDiag), ""}, // added by fix: 1342ea4 (C08 unhidden): same resource as the live map
 	"colorTime":          {rd(rColorTime), ""},
 	"changeConfFlag":     {rd(rConfFlag), ""},
 	"enableReport":       {rd(rReport), ""},
